@@ -1,6 +1,20 @@
 package kvql
 
-import "fmt"
+import (
+	"fmt"
+	"strconv"
+	"strings"
+)
+
+// floatLiteral renders a folded float so that it lexes as a float again
+// (2.0 must not be shown as 2, which would read back as an integer)
+func floatLiteral(f float64) string {
+	s := strconv.FormatFloat(f, 'f', -1, 64)
+	if !strings.ContainsAny(s, ".nN") {
+		s += ".0"
+	}
+	return s
+}
 
 type ExpressionOptimizer struct {
 	Root   Expression
@@ -138,14 +152,14 @@ func (o *ExpressionOptimizer) tryOptimizeBinaryOpExecute(e *BinaryOpExpr) (Expre
 					return &NumberExpr{Pos: leftPos, Data: fmt.Sprintf("%v", cret), Int: cret}, true
 				case float64:
 					// An integer literal combined with a float gives a float: keep the result's kind
-					return &FloatExpr{Pos: leftPos, Data: fmt.Sprintf("%v", cret), Float: cret}, true
+					return &FloatExpr{Pos: leftPos, Data: floatLiteral(cret), Float: cret}, true
 				}
 			case *FloatExpr:
 				switch cret := ret.(type) {
 				case int64:
-					return &FloatExpr{Pos: leftPos, Data: fmt.Sprintf("%v", float64(cret)), Float: float64(cret)}, true
+					return &FloatExpr{Pos: leftPos, Data: floatLiteral(float64(cret)), Float: float64(cret)}, true
 				case float64:
-					return &FloatExpr{Pos: leftPos, Data: fmt.Sprintf("%v", cret), Float: cret}, true
+					return &FloatExpr{Pos: leftPos, Data: floatLiteral(cret), Float: cret}, true
 				}
 			}
 		}
@@ -284,7 +298,7 @@ func (o *ExpressionOptimizer) tryOptimizeFunctionCall(e *FunctionCallExpr) (Expr
 			}
 			fret, ok := ret.(float64)
 			if ok {
-				return &FloatExpr{Pos: e.GetPos(), Data: fmt.Sprintf("%v", ret), Float: fret}, true
+				return &FloatExpr{Pos: e.GetPos(), Data: floatLiteral(fret), Float: fret}, true
 			}
 		case TBOOL:
 			if ret.(bool) {
